@@ -210,6 +210,8 @@ var c10AbsCases = []struct {
 	{"{k us{...on I{b}}}", "b", "", ""},                         // interface fragment under a union-typed field
 	{"{k cb{...F} ca{...F}} fragment F on I{x a}", "a", "", ""}, // the other order
 	{"{k is{...on I{...on I{b}}}}", "b", "", ""},                // nested, same condition
+	{"{k us{a}}", "a", "B.a", "B"},                              // fields straight under a union-typed field are looked up per member
+	{"{k us{__typename b}}", "b", "A.b", "A"},                   //
 	{"{k is{x} ca{zz}}", "zz", "", ""},                          // defined nowhere (control)
 }
 
